@@ -156,9 +156,12 @@ func c05Check(r *kit.Result, caseID string, p c05Params) (time.Duration, error) 
 
 func TestVerif_C05_CalculateTTL(t *testing.T) {
 	seed := kit.Seed(5)
-	r := kit.NewResult(t, "c05-calculate-ttl", seed, "exhaustive lattice over {-10s,0,10s,40s,100s,1000s,100000s}^5 for increment/backend TTL/period/backend max/explicit max x system max {0,60s,500s,32d} x system default {20s,32d} x elapsed since issue {issue=now(zero time), 0, 1/2, bound-5s, bound+5s, 3*bound+100s}; then seeded random parameters with sub-second values; the bound oracle is applied to every call; a case is non-trivial when the grant was capped by a maximum (distinct by parameters)")
+	r := kit.NewResult(t, "c05-calculate-ttl", seed, "exhaustive lattice over {-10s,0,10s,40s,100s,1000s,100000s (thorough: +3s,3600s)}^5 for increment/backend TTL/period/backend max/explicit max x system max {0,60s,500s,32d} x system default {20s,32d} x elapsed since issue {issue=now(zero time), 0, 1/2, bound-5s, bound+5s, 3*bound+100s}; then seeded random parameters with sub-second values; the bound oracle is applied to every call; a case is non-trivial when the grant was capped by a maximum (distinct by parameters)")
 	defer r.Write(t)
 	mags := []time.Duration{-10 * time.Second, 0, 10 * time.Second, 40 * time.Second, 100 * time.Second, 1000 * time.Second, 100000 * time.Second}
+	if kit.Tier() == "thorough" {
+		mags = append(mags, 3*time.Second, 3600*time.Second)
+	}
 	sysMaxes := []time.Duration{0, 60 * time.Second, 500 * time.Second, 32 * 24 * time.Hour}
 	sysDefs := []time.Duration{20 * time.Second, 32 * 24 * time.Hour}
 	shard, shards := kit.Shard()
